@@ -24,15 +24,15 @@ def judge(cfg, res):
 def cases(tier):
     cs = []
     q = tier == "quick"
-    names = ["S", "L", "N", "T", "A", "M", "F1", "Fh", "P1", "U"] if q else ["S", "L", "N", "V", "T", "T0", "A", "As", "M", "Mn", "F1", "Fh", "P1", "P2", "U"]
-    end = 6 if q else 9
+    names = ["S", "L", "N", "T", "A", "M", "F1", "Fh", "P1", "U"] if q else ["S", "L", "N", "V", "T", "A", "As", "M", "F1", "Fh", "P1", "P2", "U"]
+    end = 6 if q else 8
     for ch in F.chains(names, 2):
         # chains whose delay-to-pull adapters remember several requests have much larger state spaces: shorter horizon
         e2 = end if sum(t[1] for t in ch if t[0] == "P") < 2 else min(end, 7)
         for order in (("A", "B"), ("B", "A")):
             cs.append(F.pair(ch, end=e2, order=order))
     if not q:
-        small = ["L", "A", "F1", "Fh", "P1", "U", "S"]
+        small = ["L", "A", "F1", "P1", "U", "S"]
         for ch in F.chains(small, 3):
             if len(ch) == 3:
                 cs.append(F.pair(ch, end=7))
